@@ -24,7 +24,7 @@ META = {
     "ready": True,
     "category": "proof",
     "technique": "Lean 4 transition-system proofs (single engine thread + host on one controller, every store/load of the pause flag and state atomic) + table regenerated from jit2/cgen.rs + interruption of the real engine for looping shapes x JIT on/off x request positions, deterministic replay through cfg(steel_verif) yield points",
-    "level_text": "Theorems (lean/SteelVerif/C17/Props.lean) about the model of the poll / interrupt / resume protocol: interrupt_bounded - once interrupt() has completed, the evaluation returns within B+5 further steps of the thread, B = longest native region entered, for every mix of ordinary instructions, primitives, nested vm() loops of higher-order built-ins and native calls; interrupt_not_lost_partial - for every interleaving of thread steps and host requests in which no stop_threads()/resume_threads() pair of the thread's own collection or global update overlaps a pending request, the request stays visible to the poll; interrupt_delivered_partial - under the stronger guard G2 (the thread does not execute the state load of a safepoint exit loop while a request is between its two stores; the host resumes only after run returned) the thread never parks on a request and a complete pending request finds it ready; resume_usable - after the error and resume() the engine polls through. The full statements are false for the code as it is and the negations are proved from concrete traces: not_interrupt_not_lost (resume() of the thread's own round erases the request: finding K17a), not_interrupt_delivered (interrupt() is two stores; a thread leaving a safepoint between them parks and nobody unparks it: K17c), not_interrupt_bounded_native (a native back-edge without poll never returns: K17b; the table of back-edge opcodes is regenerated from jit2/cgen.rs and checked by decide). What is NOT a theorem: that the real engine follows the model - that is the differential run (looping shapes x JIT on/off x request positions on the real engine, wall-clock bound) and the forced replays through the yield-point hooks.",
+    "level_text": "Theorems (lean/SteelVerif/C17/Props.lean) about the model of the poll / interrupt / resume protocol: interrupt_bounded - once interrupt() has completed, the evaluation returns within B+5 further steps of the thread, B = longest native region entered, for every mix of ordinary instructions, primitives, nested vm() loops of higher-order built-ins and native calls; interrupt_not_lost_partial - for every interleaving of thread steps and host requests in which no stop_threads()/resume_threads() pair of the thread's own collection or global update overlaps a pending request, the request stays visible to the poll; interrupt_delivered_partial - under the stronger guard G2 (the thread does not execute the state load of a safepoint exit loop while a request is between its two stores; the host resumes only after run returned) the thread never parks on a request and a complete pending request finds it ready; interrupt_bounded_error / interrupt_end_to_end_partial - the two composed: after every G2-respecting history a complete pending request ends, within dist <= B+5 thread steps, in the interrupt error unless the program finishes first; resume_usable - after the error and resume() the engine polls through. The full statements are false for the code as it is and the negations are proved from concrete traces: not_interrupt_not_lost (resume() of the thread's own round erases the request: finding K17a), not_interrupt_delivered (interrupt() is two stores; a thread leaving a safepoint between them parks and nobody unparks it: K17c), not_interrupt_bounded_native (a native back-edge without poll never returns: K17b; the table of back-edge opcodes is regenerated from jit2/cgen.rs and checked by decide). What is NOT a theorem: that the real engine follows the model - that is the differential run (looping shapes x JIT on/off x request positions on the real engine, wall-clock bound) and the forced replays through the yield-point hooks.",
     "level_note": "Trusted: Lean kernel (axioms propext, Classical.choice, Quot.sound), the harness / watcher thread / python comparison, the regex translator over jit2/cgen.rs and vm.rs. Modelled, not verified: sequentially consistent atomics (the code uses Relaxed), one engine thread (multi-thread rounds are C15/C16), wall-clock time (the bound is in steps in the theorem; in the run it is 400 ms of CPU time of the evaluation thread, read from /proc, so that machine load does not count), primitives that loop internally without returning (one script step each). Request positions in the hook-free run are wall-clock delays after the script signalled that it is inside its loop, not instruction counts.",
 }
 
